@@ -232,6 +232,9 @@ def cfg_hex(tier, seed):
         for rot in (False, True):
             out.append({'what': 'count', 'rings': rings, 'rotate': rot, 'drop': drop})
     out.append({'what': 'count', 'rings': 1, 'rotate': False, 'drop': [], 'R': 6})
+    # butted segments (gap 0, the non-negative corner of the quantifier): samples on a shared edge belong to one segment only
+    for R, rot, rings in ((4, False, 1), (4, True, 1), (3, False, 2), (5, True, 1), (4.5, False, 1), (2.5, True, 2)):
+        out.append({'what': 'count', 'rings': rings, 'rotate': rot, 'drop': [], 'R': R, 'g': 0})
     out.append({'what': 'count', 'rings': 2, 'rotate': True, 'drop': [5], 'R': 4})
     return out, len(out), True
 
@@ -241,7 +244,7 @@ def run_hex(W, cfg):
     S = W.mod('segmented')
     rings, rot = cfg['rings'], cfg['rotate']
     if cfg['what'] == 'count':
-        R, g = cfg.get('R', 2.5), 0.5
+        R, g = cfg.get('R', 2.5), cfg.get('g', 0.5)
         m = lt.hex_segments(rings, R, g, rotate=rot, antialias=False, drop=tuple(cfg['drop']), pad=2)
         m = W.concrete(m)
         nseg = 1 + 3 * rings * (rings + 1) - len(cfg['drop'])
